@@ -146,6 +146,10 @@ structure Cfg where
   maxLimit  : Nat := 10000
   viewLevel : Nat := 10
   adminLevel : Nat := 30
+  lateDict  : Bool := false  -- `true` = the per-port cache dict is looked up again when an answer is stored (instead of
+                             -- the reference bound before the awaited persistence call); only for the witness theorem
+  popAfter  : Bool := false  -- `true` = `remove_samples` drops the ports' cache dicts again after the persistence call
+                             -- (candidate repair fixes/C18-remove-invalidate-after.diff); `false` = the code as it is
   deriving Repr
 
 /-- `_samples_cache`: port id ↦ timestamp ↦ adapted value (or null), flattened; Python dict = at most one entry per key. -/
@@ -481,5 +485,109 @@ def run (cfg : Cfg) : State → List Op → State × List Ans
     let (st1, a) := step cfg st op
     let (st2, as) := run cfg st1 ops
     (st2, a :: as)
+
+/-! ### Overlapping operations (one await point per operation)
+
+`get_samples_by_timestamp` binds the port's cache dict, reads the hits, then awaits the persistence layer and only
+afterwards stores the fetched answers; `remove_samples` pops the ports' dicts and then awaits the persistence layer.
+Between the two halves any other operation can run.  A dict popped while a query is in flight is merely orphaned: the
+query still holds the reference bound before the await and writes into the orphan (`Flight.orphan`). -/
+
+/-- A by-timestamp query suspended in its persistence call. -/
+structure Flight where
+  k        : Nat                            -- request id
+  pid      : Nat
+  pt       : PType
+  now      : Int                            -- `now_ms`, taken before the await
+  tss      : List Int
+  results0 : List (Int × Option Val)        -- answers found in the cache before the await
+  missed   : List Int
+  fetched  : Option (List (Option Int))     -- reply of the persistence layer once the query has executed
+  orphan   : Bool                           -- the dict bound before the await has been popped meanwhile
+  deriving Repr
+
+structure SState where
+  st      : State := {}
+  flights : List Flight := []
+  deriving Repr
+
+inductive SOp
+  | atomic (op : Op)                                   -- an operation that runs to completion
+  | getBegin (k pid : Nat) (now : Int) (tss : List Int)-- by-timestamp query up to its await
+  | getFetch (k : Nat)                                 -- its persistence query executes
+  | getEnd (k : Nat)                                   -- it resumes: stores and returns the answers
+  | delBegin (pids : List Nat)                         -- `remove_samples` up to its await (dicts popped)
+  | delExec (pids : List Nat) (frm to : Option Int)    -- its persistence call executes (and it resumes)
+  deriving Repr
+
+/-- The ports whose cache dict an atomic operation pops. -/
+def popped (cfg : Cfg) (st : State) : Op → List Nat
+  | .remove pids _ _ => pids
+  | .tick now =>
+    if ¬ (now > cfg.oldLimit) then []
+    else (st.ports.map (·.id)).filter (fun pid =>
+      match findPort st pid with | some p => decide (0 < p.retention) | none => false)
+  | _ => []
+
+def orphanFlights (pids : List Nat) (fls : List Flight) : List Flight :=
+  fls.map (fun fl => if pids.contains fl.pid then { fl with orphan := true } else fl)
+
+/-- The first half of `get_samples_by_timestamp`: bind the dict, look every timestamp up. -/
+def flightBegin (st : State) (k pid : Nat) (pt : PType) (now : Int) (tss : List Int) : Flight :=
+  let hits := tss.filter (fun t => (cacheGet st.cache pid t).isSome)
+  let missed := tss.filter (fun t => (cacheGet st.cache pid t).isNone)
+  let results0 : List (Int × Option Val) :=
+    hits.foldl (fun d t => dictSet d t ((cacheGet st.cache pid t).getD none)) []
+  { k := k, pid := pid, pt := pt, now := now, tss := tss, results0 := results0, missed := missed, fetched := none,
+    orphan := false }
+
+/-- The second half: adapt the fetched samples, store them in `results` and (when old enough) in the dict bound before
+the await — the live one unless it was popped meanwhile (`lateDict`: always the live one). -/
+def flightEnd (cfg : Cfg) (st : State) (fl : Flight) : State × List (Option (Int × Val)) :=
+  let fetched := (fl.fetched.getD []).map (fun o => o.map (adapt fl.pt))
+  let live := cfg.lateDict || !fl.orphan
+  let (results, cache) := storeFetched cfg fl.pid fl.now (fl.missed.zip fetched) (fl.results0, if live then st.cache else [])
+  let out :=
+    if cfg.repaired then fl.tss.map (fun t => entry t (dictGet results t))
+    else results.map (fun e => entry e.1 e.2)
+  ({ st with cache := if live then cache else st.cache }, out)
+
+def findFlight (s : SState) (k : Nat) : Option Flight := s.flights.find? (fun fl => fl.k == k)
+
+def sStep (cfg : Cfg) (s : SState) : SOp → SState × Option Ans
+  | .atomic op =>
+    let (st', a) := step cfg s.st op
+    ({ st := st', flights := orphanFlights (popped cfg s.st op) s.flights }, some a)
+  | .getBegin k pid now tss =>
+    let fl := flightBegin s.st k pid (ptypeOf s.st pid) now tss
+    if fl.missed.isEmpty then
+      -- nothing to fetch: no await, the query completes at once
+      let (st', out, _) := hByTs cfg s.st pid (ptypeOf s.st pid) now tss
+      ({ s with st := st' }, some (.byTs out))
+    else ({ s with flights := fl :: s.flights.filter (fun f => f.k != k) }, none)
+  | .getFetch k =>
+    ({ s with flights := s.flights.map (fun fl =>
+        if fl.k == k && fl.fetched.isNone then { fl with fetched := some (pByTs s.st.store fl.pid fl.missed) } else fl) },
+     none)
+  | .getEnd k =>
+    match findFlight s k with
+    | none => (s, none)
+    | some fl =>
+      if fl.fetched.isNone then (s, none) else
+      let (st', out) := flightEnd cfg s.st fl
+      ({ st := st', flights := s.flights.filter (fun f => f.k != k) }, some (.byTs out))
+  | .delBegin pids =>
+    ({ st := { s.st with cache := cacheDrop s.st.cache pids }, flights := orphanFlights pids s.flights }, none)
+  | .delExec pids frm to =>
+    if cfg.popAfter then
+      ({ st := hRemove s.st pids frm to, flights := orphanFlights pids s.flights }, none)
+    else ({ s with st := { s.st with store := pRemove s.st.store pids frm to } }, none)
+
+def sRun (cfg : Cfg) : SState → List SOp → SState × List (Option Ans)
+  | s, [] => (s, [])
+  | s, op :: ops =>
+    let (s1, a) := sStep cfg s op
+    let (s2, as) := sRun cfg s1 ops
+    (s2, a :: as)
 
 end QtVerif.History
